@@ -920,10 +920,19 @@ class Exec:
                      and len(it.args) == len(args)]
             if len(cands) > 1 and "::" in key:
                 tyname = key.split("::")[-2]
-                narrowed = [it for it in cands if any(re.search(r"\b%s\b" % re.escape(tyname), t) for _, t in it.args[:1])
-                            or (not it.args or not re.search(r"\bself\b|^&", it.args[0][1])) and re.search(r"\b%s\b" % re.escape(tyname), it.ret_type or "")]
-                if narrowed:
-                    cands = narrowed
+
+                def score(it):
+                    first = it.args[0][1] if it.args else ""
+                    if re.search(r"^&(mut )?([\w:]*::)?%s\b" % re.escape(tyname), first):
+                        return 3          # method with self: &Type
+                    if re.search(r"(^|::)%s$" % re.escape(tyname), (it.ret_type or "").strip()):
+                        return 2          # constructor returning Type
+                    if re.search(r"\b%s\b" % re.escape(tyname), first):
+                        return 1
+                    return 0
+                best = max(score(it) for it in cands)
+                if best > 0:
+                    cands = [it for it in cands if score(it) == best]
             if len(cands) != 1:
                 raise Unsupported("call to %s (no MIR, no model; %d impl candidates)" % (fn, len(cands)))
             target = cands[0]
